@@ -710,4 +710,34 @@ def Sys.runAll (v : PoolVer) (y : Sys) : List SEv → Sys × List SOut
     let (y'', os) := Sys.runAll v y' es
     (y'', o :: os)
 
+/-! ### session state sent by the client
+
+Every Execute message carries the client's session state; `dbview.decode_state` installs its
+module aliases / session config into the view (the in-transaction copies inside a block) before
+the statement is parsed — also inside a transaction, also in an aborted one.  `none` = the client
+echoes what the server last reported (the assumption of `Server.step`). -/
+
+def Server.clientState (s : Server) (cs : Option (Nat × Nat)) : Server :=
+  match cs with
+  | none => s
+  | some (a, v) => (s.setAliases a).setConfig v
+
+/-- a statement together with the session state the client sends along -/
+structure CEv where
+  cs : Option (Nat × Nat) := none
+  ev : SEv
+deriving DecidableEq, Repr
+
+def Server.stepC (s : Server) (e : CEv) : Server × SOut := (s.clientState e.cs).step e.ev
+
+def Server.runAllC (s : Server) : List CEv → Server × List SOut
+  | [] => (s, [])
+  | e :: es =>
+    let (s', o) := s.stepC e
+    let (s'', os) := Server.runAllC s' es
+    (s'', o :: os)
+
+def Sys.stepC (v : PoolVer) (y : Sys) (e : CEv) : Sys × SOut :=
+  ({ y with srv := y.srv.clientState e.cs } : Sys).step v e.ev
+
 end EdbVerif.Tx
